@@ -71,6 +71,10 @@ type Incarnation struct {
 	bootstrapped bool
 
 	lastVoterReplyNs int64
+	openedLabel      uint64 // label of the snapshot file this incarnation opened last
+	// booted: the harness's own NewRaft/Bootstrap/Start sequence has returned. Lifecycle calls of
+	// the API fuzzer and of the plan wait for it (one administrator, one lifecycle call at a time).
+	booted bool
 
 	restoring int // InstallSnapshot handlers inside their unlocked restore window
 	isBusy    bool
@@ -268,6 +272,7 @@ func (c *Cluster) bootIncarnation(inc *Incarnation) error {
 	if err := r.Start(); err != nil {
 		return fmt.Errorf("Start: %w", err)
 	}
+	inc.booted = true
 	return nil
 }
 
